@@ -647,7 +647,11 @@ class Gen:
             # outer query by the SQL rules: listed finding of merge_subqueries (C03 probe); not part of the main workload
             others = [c for c in src.cols if c[1] == INT and c[0] != src.outer_col]
             arg = ("col", src.alias, others[0][0], INT, src.alias) if others else ("lit", 1, INT)
-        q.projs = [(("agg", self.pick(["MAX", "MIN", "SUM", "COUNT"]), arg, False), None)]
+        sagg = ("agg", self.pick(["MAX", "MIN", "SUM", "COUNT"]), arg, False)
+        if f.get("agg_arith") and self.chance(f["agg_arith"]):
+            sagg = ("bin", self.pick(["+", "-"]), sagg, ("lit", self.pick([1, 2]), INT)) if self.chance(0.6) else ("bin", "-", ("lit", 7, INT), sagg)
+            self.tags.add("sub:scalar-agg-arith")
+        q.projs = [(sagg, None)]
         return ("bin", self.pick(["=", "<", ">=", "<>"]), self.int_expr(scope, 1), ("scalar", q))
 
     # -- sources ---------------------------------------------------------------------
@@ -739,7 +743,17 @@ class Gen:
                     name = self.pick(ctes)[0]
                     visible = [c for c in ctes if c[0] != name]
                     self.tags.add("cte:shadows-outer")
-                cq = self.select(max(depth - 1, 0), as_source=True, ctes=visible)
+                if f.get("derived_setop") and f["setops"] and self.chance(f["derived_setop"]):
+                    # a CTE whose body is a chain of set operations (with cte_cols: under a column list)
+                    saved_st = self._scope_tables
+                    self._scope_tables = set()
+                    try:
+                        cq = self.setop_query(as_source=True)
+                    finally:
+                        self._scope_tables = saved_st
+                    self.tags.add("cte:set-operation")
+                else:
+                    cq = self.select(max(depth - 1, 0), as_source=True, ctes=visible)
                 colnames = None
                 if f["cte_cols"] and self.chance(0.3):
                     colnames = [f"cc{my_n}_{i}" for i in range(len(cq.out))]
@@ -1168,6 +1182,10 @@ class Gen:
             q.where = ("bin", "=", self.colref([src], INT), oc)
             self.tags.add("sub:correlated")
         agg = ("agg", self.pick(["MAX", "MIN", "SUM", "COUNT"]), ic, False)
+        if self.f.get("agg_arith") and self.chance(self.f["agg_arith"]):
+            # the value is an expression over the aggregate (for an outer row without a match COUNT(..) + 1 is 1, not NULL or 0)
+            agg = ("bin", self.pick(["+", "-"]), agg, ("lit", self.pick([1, 2]), INT)) if self.chance(0.6) else ("bin", "-", ("lit", 7, INT), agg)
+            self.tags.add("sub:scalar-agg-arith")
         q.projs = [(agg, None)]
         q.out = [("_", INT, self.prov(ic, [src]))]
         self.tags.add("sub:scalar-proj")
